@@ -27,6 +27,10 @@ RULE = ('histories: typed random walk (8-14 steps after set-up) over the public 
         'shares more state with an older tensor than the model documents, an aliasing probe replays the history up to that '
         'step and modifies result and operand in place on the real objects. Each history runs under both kernel configurations (fresh compiled '
         'build, TENPY_NO_CYTHON=1) and through the Lean heap model with the kernel flag. Plus MPS/MPO scenarios. '
+        'Factorisations (qr/lq/svd/polar/eigh/eig/...) are called with drawn options (mode reduced/complete, inner_qconj +-1, '
+        'qtotal_Q / qtotal_LR None or a charge, pos_diag, cutoff, inner_labels, sort, UPLO), preferably on operands whose legs are '
+        'already blocked by charge; every LegCharge/LegPipe object ever reachable from a registered tensor (charges, slices, qconj, '
+        'flags, pipe maps) is re-fingerprinted after every step. '
         'A history is non-trivial when it contains an in-place step, a shallow copy or view, and >= 3 live tensors; '
         'distinct by content hash. MPS/MPO level (oracle only): MPOs from a model (virtual legs unsorted), from_grids and '
         'MPO(...) with caller-owned IdL/IdR/W lists, MPOGraph; a second object derived by dagger / copy / + / make_U_I / '
